@@ -110,6 +110,9 @@ func pointRanges(d *dataset) []int {
 	}
 	// long series: first row, the rows around the block limit, last row
 	cand := []int{0, 8191, 8192, 8193, mx - 1}
+	if len(d.ss) > 0 && d.ss[0].Gen == "len" {
+		cand = []int{0, 2, 3, 130, 259} // the rows that hold the long values (4-row and 260-row series)
+	}
 	var out []int
 	seen := map[int]bool{}
 	for _, p := range cand {
